@@ -36,11 +36,12 @@ class C04(PropBase):
         n = 250 if tier == "quick" else 3000
         out = []
         for i in range(n):
-            klass = rng.choice(["distinct", "distinct", "distinct-audit", "duplicates", "scales", "empty-vs-absent", "priced", "uuid-vs-absent"])
+            klass = rng.choice(["distinct", "distinct", "distinct-audit", "duplicates", "scales", "empty-vs-absent", "priced", "uuid-vs-absent",
+                                "far-dates"])
             cfg = {"group_by": rng.choice(["year", "month", "date", "iso-week", "iso-week-date"])}
             opts = {"p_invalid": 0.0, "n_txns": rng.choice([2, 3, 4, 5, 6, 8]), "comms": common.COMMS[:rng.randrange(1, 4)],
                     "p_comments": 0.3, "p_tags": 0.3, "p_loc": 0.2}
-            if klass in ("distinct", "distinct-audit", "scales", "priced"):
+            if klass in ("distinct", "distinct-audit", "scales", "priced", "far-dates"):
                 opts["p_uuid"] = 1.0
             if klass == "priced":
                 # price conversion (txn-time / last-price) with several converted commodities: the "Commodity Prices"
@@ -57,6 +58,11 @@ class C04(PropBase):
                 cfg["audit"] = True
                 cfg["hash"] = rng.choice(["SHA-256", "SHA-512", "SHA3-256"])
             txns = common.gen_journal(rng, cfg, opts)
+            if klass == "far-dates":
+                # instants on both sides of what a signed 64-bit nanosecond count can hold (1677 .. 2262), with ordinary ones
+                for t in txns:
+                    if rng.random() < 0.6:
+                        t["ts"] = common.gen_ts(rng, cfg, base_year=rng.choice([1001, 1500, 1676, 1678, 1900, 2261, 2263, 2500, 9998]))
             if klass == "duplicates":
                 # clone headers so that some transactions are indistinguishable by (instant, code, desc, uuid)
                 for t in txns:
